@@ -393,7 +393,7 @@ PROPS = {
                 "distinct by hash of (call description, index, mode).",
         "require": {"calls": 1000, "faulted_runs": 1500, "calls.compactCells": 50, "calls.gridDisk": 100, "calls.gridDiskDistances": 100, "calls.areNeighborCells": 300, "calls.polygonToCells": 50,
                     "calls.polygonToCellsExperimental": 100, "calls.maxPolygonToCellsSizeExperimental": 100, "errorpath.compactCells": 20, "errorpath.polygonToCellsExperimental": 30, "errorpath.gridDisk": 100, "errorpath.gridDiskDistances": 100, "errorpath.areNeighborCells": 500,
-                    "errorpath.maxPolygonToCellsSizeExperimental": 15, "errorpath.polygonToCells": 20, "hostile.cases": 300, "badpoly.cases": 30, "compaction.multi_round_sets": 10},
+                    "errorpath.maxPolygonToCellsSizeExperimental": 15, "errorpath.polygonToCells": 20, "hostile.cases": 300, "badpoly.cases": 30, "compaction.multi_round_sets": 8},
         "assumptions": ["every library allocation goes through H3_MEMORY (the prefix mechanism)", "the default-allocator copy is the same source tree compiled without the prefix"],
     },
     "C18": {
